@@ -12,7 +12,7 @@ import (
 func init() {
 	register(&propInfo{
 		ID:          "C07",
-		Explanation: "Path, lock and sibling-agreement analysis of channel streaming: (R07.1) in the forwarding goroutine, between adding a registered channel to the select set and the next select, the response announcing that channel is written through the connection's locked message writer; the forwarder is started once (sync.Once) and is the only receiver of registrations; (R07.2) after a successful registration the dispatcher emits no reply of its own; (R07.3) the client's buffer is a FIFO: push and pop ends of the list are opposite; (R07.4) intake is decoupled from the consumer: the sink's hand-over into the intake channel is a select alternative to the subscription context, and the buffering goroutine never disables or rewrites a select case once the case list is built (it only appends the consumer case when there is something to deliver); (R07.5) value and close callbacks of one sink run under that sink's lock, which is only ever taken while the sink-table lock is held (lock coupling, so frames of one stream cannot overtake each other); (R07.6) the forwarder's two parallel slices (select cases and channel ids) are updated by the same removal scheme; (R07.7) inbound frames are executed in arrival order by one executor with synchronous dispatch of responses, values and closes. (R07.10) a sink leaves the table only together with its close. (R07.11) no value is filtered by a test of its payload bytes. (R07.12) no channel id is arithmetic on a length; (R07.13) the forwarder never receives from one channel directly; (R07.14) an element leaves the client-side buffer only when it was handed to the caller.",
+		Explanation: "Path, lock and sibling-agreement analysis of channel streaming: (R07.1) in the forwarding goroutine, between adding a registered channel to the select set and the next select, the response announcing that channel is written through the connection's locked message writer; the forwarder is started once (sync.Once) and is the only receiver of registrations; (R07.2) after a successful registration the dispatcher emits no reply of its own; (R07.3) the client's buffer is a FIFO: push and pop ends of the list are opposite; (R07.4) intake is decoupled from the consumer: the sink's hand-over into the intake channel is a select alternative to the subscription context, and the buffering goroutine never disables or rewrites a select case once the case list is built (it only appends the consumer case when there is something to deliver); (R07.5) value and close callbacks of one sink run under that sink's lock, which is only ever taken while the sink-table lock is held (lock coupling, so frames of one stream cannot overtake each other); (R07.6) the forwarder's two parallel slices (select cases and channel ids) are updated by the same removal scheme; (R07.7) inbound frames are executed in arrival order by one executor with synchronous dispatch of responses, values and closes. (R07.10) a sink leaves the table only together with its close. (R07.11) no value is filtered by a test of its payload bytes. (R07.12) no channel id is arithmetic on a length; (R07.13) the forwarder never receives from one channel directly; (R07.14) an element leaves the client-side buffer only when it was handed to the caller. (R07.15) the forwarder returns because of an error only when it comes from a socket write.",
 		NotDecided:  "Element values and the index arithmetic of the swap-remove beyond the two slices using the same scheme; real producer/consumer speeds.",
 		Assumptions: []string{"container/list semantics", "reflect.Select picks among the cases it is given; a zero Chan disables a case"},
 		Run:         runC07,
@@ -137,6 +137,8 @@ func runC07(c *Ctx) {
 	c.rule("R07.7", "frames executed in arrival order with synchronous dispatch")
 	c.rule("R07.14", "lossless: a value leaves the client-side buffer only by having been handed to the caller")
 	c.removedOnlyWhenDelivered("R07.14")
+	c.rule("R07.15", "streams are independent: the forwarder gives up (returns) because of an error only when that error comes from writing to the socket — a value that cannot be encoded costs that value, not every stream on the connection")
+	c.forwarderReturnsOnlyOnWriteError("R07.15")
 	c.ruleOpt("R07.13", "the forwarder takes values only through its one reflect.Select over all open channels: it never receives from a particular channel directly (draining one stream in a loop starves the others and the intake of new channels)")
 	if w.OutChans != nil {
 		n := 0
@@ -822,43 +824,75 @@ func (c *Ctx) closeWhenDrained(rule string) {
 		}
 		n++
 		construct := fmt.Sprintf("%s: close of the caller's channel", fname(in.Parent()))
-		why := ""
-		for _, cf := range expandConds(impliedConds(in.Block())) {
-			bo, ok := cf.Cond.(*ssa.BinOp)
-			if !ok {
-				continue
-			}
-			op := bo.Op
-			if !cf.True {
-				op = negate(op)
-			}
-			// (a) chosen == ctxIdx
-			if op == token.EQL && chosen != nil && ctxIdx >= 0 {
-				if k, ok := constInt(bo.Y); ok && bo.X == chosen && k == ctxIdx {
-					why = "in the subscription-context arm"
+		justify := func(conds []condFact) string {
+			why := ""
+			for _, cf := range expandConds(conds) {
+				bo, ok := cf.Cond.(*ssa.BinOp)
+				if !ok {
+					continue
 				}
-				if k, ok := constInt(bo.X); ok && bo.Y == chosen && k == ctxIdx {
-					why = "in the subscription-context arm"
+				op := bo.Op
+				if !cf.True {
+					op = negate(op)
 				}
-			}
-			// (b) buf.Len() == 0 (or <= 0, < 1)
-			isLen := func(v ssa.Value) bool {
-				call, ok := v.(*ssa.Call)
-				return ok && calleeName(call) == "(*container/list.List).Len"
-			}
-			L, R := bo.X, bo.Y
-			if isLen(R) {
-				L, R = R, L
-				op = flip(op)
-			}
-			if isLen(L) {
-				if k, ok := constInt(R); ok {
-					if (op == token.EQL && k == 0) || (op == token.LEQ && k == 0) || (op == token.LSS && k == 1) {
-						why = "buffer known empty"
+				// (a) chosen == ctxIdx
+				if op == token.EQL && chosen != nil && ctxIdx >= 0 {
+					if k, ok := constInt(bo.Y); ok && bo.X == chosen && k == ctxIdx {
+						why = "in the subscription-context arm"
+					}
+					if k, ok := constInt(bo.X); ok && bo.Y == chosen && k == ctxIdx {
+						why = "in the subscription-context arm"
+					}
+				}
+				// (b) buf.Len() == 0 (or <= 0, < 1)
+				isLen := func(v ssa.Value) bool {
+					call, ok := v.(*ssa.Call)
+					return ok && calleeName(call) == "(*container/list.List).Len"
+				}
+				L, R := bo.X, bo.Y
+				if isLen(R) {
+					L, R = R, L
+					op = flip(op)
+				}
+				if isLen(L) {
+					if k, ok := constInt(R); ok {
+						if (op == token.EQL && k == 0) || (op == token.LEQ && k == 0) || (op == token.LSS && k == 1) {
+							why = "buffer known empty"
+						}
 					}
 				}
 			}
+			return why
 		}
+		// the close may sit behind a join (one close after the loop): then every way into it is justified
+		var justified func(b *ssa.BasicBlock, depth int) string
+		justified = func(b *ssa.BasicBlock, depth int) string {
+			if w := justify(impliedConds(b)); w != "" {
+				return w
+			}
+			if depth == 0 || len(b.Preds) == 0 {
+				return ""
+			}
+			all := ""
+			for _, pr := range b.Preds {
+				conds := append([]condFact{}, impliedConds(pr)...)
+				if iff, ok := pr.Instrs[len(pr.Instrs)-1].(*ssa.If); ok {
+					conds = append(conds, condFact{Cond: iff.Cond, True: pr.Succs[0] == b})
+				}
+				w := justify(conds)
+				if w == "" {
+					if _, isIf := pr.Instrs[len(pr.Instrs)-1].(*ssa.If); !isIf && pr != b {
+						w = justified(pr, depth-1)
+					}
+				}
+				if w == "" {
+					return ""
+				}
+				all = "every way in: " + w
+			}
+			return all
+		}
+		why := justified(in.Block(), 3)
 		c.check(why != "", rule, construct, c.ipos(in), why,
 			"the caller's channel can be closed while values are still buffered and the subscription's context is live (e.g. on an idle timer or right at the close notification): the undelivered tail is dropped and the consumer sees a normal-looking close")
 	})
@@ -1000,6 +1034,22 @@ func (c *Ctx) idsNotFromLength(rule string) {
 					}
 				}
 			}
+			// a field of a local record (the registration): what was stored into that field of it
+			if fa, ok := x.X.(*ssa.FieldAddr); ok && x.Op == token.MUL {
+				if al, ok := fa.X.(*ssa.Alloc); ok {
+					for _, ref := range *al.Referrers() {
+						fa2, ok := ref.(*ssa.FieldAddr)
+						if !ok || fa2.Field != fa.Field {
+							continue
+						}
+						for _, r2 := range *fa2.Referrers() {
+							if st, ok := r2.(*ssa.Store); ok && st.Addr == ssa.Value(fa2) && arith(st.Val, d+1) {
+								return true
+							}
+						}
+					}
+				}
+			}
 		}
 		return false
 	}
@@ -1027,5 +1077,70 @@ func (c *Ctx) idsNotFromLength(rule string) {
 	}
 	if n == 0 {
 		c.ok(rule, "channel ids", "-", "no id stored into an id list in the forwarder's region")
+	}
+}
+
+// forwarderReturnsOnlyOnWriteError: R07.15. For every return of the forwarder that stands behind a test
+// "err != nil", the tested error originates (through helpers) only from gorilla's write calls.
+func (c *Ctx) forwarderReturnsOnlyOnWriteError(rule string) {
+	w := c.ws()
+	if w.OutChans == nil {
+		c.und(rule, "forwarder", "-", "not resolved")
+		return
+	}
+	n := 0
+	allInstrs(w.OutChans, func(in ssa.Instruction) {
+		ret, ok := in.(*ssa.Return)
+		if !ok {
+			return
+		}
+		for _, cf := range impliedConds(ret.Block()) {
+			bo, ok := cf.Cond.(*ssa.BinOp)
+			if !ok || (bo.Op != token.EQL && bo.Op != token.NEQ) {
+				continue
+			}
+			ev := bo.X
+			if isNilConst(bo.X) {
+				ev = bo.Y
+			} else if !isNilConst(bo.Y) {
+				continue
+			}
+			if !isErrorType(ev.Type()) || cf.True != (bo.Op == token.NEQ) {
+				continue
+			}
+			n++
+			construct := fmt.Sprintf("%s: return because of an error", fname(w.OutChans))
+			var foreign ssa.Value
+			for _, o := range c.origins(ev) {
+				switch x := o.Root.(type) {
+				case *ssa.Const:
+					continue
+				case *ssa.Call:
+					if strings.HasPrefix(calleeName(x), "(*github.com/gorilla/websocket.Conn).") {
+						continue
+					}
+					if cm := x.Common(); cm.IsInvoke() && (cm.Method.Name() == "Close" || cm.Method.Name() == "Write") {
+						continue // the message writer obtained from the socket
+					}
+				case *ssa.Extract:
+					if call, ok := x.Tuple.(*ssa.Call); ok && strings.HasPrefix(calleeName(call), "(*github.com/gorilla/websocket.Conn).") {
+						continue
+					}
+				}
+				foreign = o.Root
+			}
+			if foreign != nil {
+				pos := c.ipos(ret)
+				if fi, ok := foreign.(ssa.Instruction); ok {
+					pos = c.ipos(fi)
+				}
+				c.bad(rule, construct, pos, "the forwarder can return because of an error that does not come from writing to the socket (e.g. a value that could not be marshalled, merged with the send error by a helper): one unencodable element ends every stream on the connection — the others stall, never close, and new subscriptions hang")
+			} else {
+				c.ok(rule, construct, c.ipos(ret), "only errors of socket writes")
+			}
+		}
+	})
+	if n == 0 {
+		c.ok(rule, fmt.Sprintf("%s: return because of an error", fname(w.OutChans)), "-", "no return behind an error test")
 	}
 }
